@@ -10,6 +10,7 @@ import (
 	"fmt"
 	"sort"
 	"strconv"
+	"strings"
 	"testing"
 	"time"
 
@@ -625,7 +626,7 @@ func TestTdx(t *testing.T) {
 func TestOneBitNeighbours(t *testing.T) {
 	const name = "one-bit-sweep"
 	world()
-	ev.Rule(name, "all 384 one-bit neighbours of one endorsed SNP measurement (verify.SNP and the closure with its VMSA count, SevValidate with count 0 and with its count; the table also carries another count and an SVSM value) and of one endorsed MRTD (TdxValidate with its RAM size and with RAM 0); oracle: every neighbour is rejected; an entry point that rejects the endorsed value itself is counted as inconclusive and its sweep does not count as non-trivial; exhaustive; distinct = (entry, bit)")
+	ev.Rule(name, "all 384 one-bit neighbours of one endorsed SNP measurement (verify.SNP and a fresh closure per call with its VMSA count, ONE reused closure that has just accepted the endorsed value (with its count; thorough also without a count), SevValidate with count 0 and with its count; the table also carries another count and an SVSM value) and of one endorsed MRTD (TdxValidate with its RAM size and with RAM 0); oracle: every neighbour is rejected; an entry point that rejects the endorsed value itself is counted as inconclusive and its sweep does not count as non-trivial; exhaustive; distinct = (entry, bit)")
 	m := bytes.Repeat([]byte{0x42}, 48)
 	m2 := bytes.Repeat([]byte{0x24}, 48)
 	m3 := bytes.Repeat([]byte{0x81}, 48)
@@ -655,7 +656,17 @@ func TestOneBitNeighbours(t *testing.T) {
 			return gcetcbendorsement.TdxValidate(ctx, attest.TdxRawQuote(v), &gcetcbendorsement.TdxValidateOptions{Endorsement: e, RootsOfTrust: pool, Now: t0})
 		},
 	}
-	for _, entry := range []string{"verify.SNP", "closure", "SevValidate", "SevValidate/count", "TdxValidate", "TdxValidate/ram0"} {
+	// one long-lived closure per entry: it first accepts the endorsed value (the liveness probe below)
+	// and then sees every neighbour of what it has just accepted
+	reused := verify.SNPValidateFunc(&verify.Options{RootsOfTrust: pool, Now: t0, SNP: &verify.SNPOptions{ExpectedLaunchVMSAs: 4}})
+	reused0 := verify.SNPValidateFunc(&verify.Options{RootsOfTrust: pool, Now: t0})
+	run["closure/reused-after-acceptance"] = func(v []byte) error { return reused(attest.SnpAttestation(v, nil), eb) }
+	run["closure/reused-after-acceptance/count0"] = func(v []byte) error { return reused0(attest.SnpAttestation(v, nil), eb) }
+	order := []string{"verify.SNP", "closure", "SevValidate", "SevValidate/count", "TdxValidate", "TdxValidate/ram0", "closure/reused-after-acceptance"}
+	if ev.Tier() == "thorough" {
+		order = append(order, "closure/reused-after-acceptance/count0")
+	}
+	for _, entry := range order {
 		live := true
 		if err, pan := recoverCall(func() error { return run[entry](m) }); err != nil || pan != nil {
 			// not demanded by the statement; the sweep below is then no evidence of anything
@@ -667,7 +678,14 @@ func TestOneBitNeighbours(t *testing.T) {
 			v[bit/8] ^= 1 << (bit % 8)
 			err, pan := recoverCall(func() error { return run[entry](v) })
 			if pan == nil && err == nil {
-				ev.Violation(t, "C02/one-bit-neighbour-accepted", "%s accepted the neighbour of the endorsed value with bit %d flipped", entry, bit)
+				key := "C02/one-bit-neighbour-accepted"
+				if strings.HasPrefix(entry, "closure/reused") && live {
+					if ferr, fpan := recoverCall(func() error { return run["closure"](v) }); fpan == nil && ferr != nil {
+						// diagnosis only: a fresh closure rejects the same value
+						key = "C02/snp/verdict-depends-on-earlier-acceptance"
+					}
+				}
+				ev.Violation(t, key, "%s accepted the neighbour of the endorsed value with bit %d flipped", entry, bit)
 				break
 			}
 			ev.Case(name, live, entry+strconv.Itoa(bit), entry, func() any { return map[string]any{"entry": entry, "bit": bit, "accepted": false} })
